@@ -22,7 +22,7 @@ ROOTDIR = os.path.dirname(os.path.dirname(os.path.abspath(__file__)))
 SO, USER = b"mp-so-pin", b"mp-user-pin"
 ATTRNAME = {1: "lab", 2: "id", 3: "sd"}
 ORDER = ["refresh", "txlock", "wlock", "trunc", "flush", "txunlock", "rm", "rmlock"]
-TIMEOUT = 8.0
+TIMEOUT = 60.0    # starting a worker / an ungated call on a loaded machine
 SHORT = 1.5      # a process that has not moved after this long sits in the kernel waiting for a file lock
 
 
